@@ -67,7 +67,8 @@ def _reads_field(body, operand, field, depth=6):
 
 
 def has(og, pat):
-    return any(glob_match(pat, o) for o in og)
+    # a field path under the named origin also counts (getters spliced by the inliner make origins more precise)
+    return any(glob_match(pat, o) or (pat[-1] != '*' and glob_match(pat + '.*', o)) for o in og)
 
 
 def run(ctx):
